@@ -91,6 +91,11 @@ impl CidStore<RawValue> {
     pub fn verify_raw_value(&self) -> Result<(), CidStoreVerificationError> {
         for (cid, value) in &self.0 {
             verify_raw_value(cid, value.as_inner())?;
+            // RawValue::get_value parses lazily and cannot report an error: reject non-JSON text here
+            serde_json::from_str::<crate::JValue>(value.as_inner()).map_err(|e| CidStoreVerificationError::MalformedValue {
+                cid_repr: cid.get_inner(),
+                error: e.to_string(),
+            })?;
         }
         Ok(())
     }
@@ -107,6 +112,9 @@ pub enum CidStoreVerificationError {
         target_type_name: &'static str,
         target_cid_repr: Rc<CidRef>,
     },
+
+    #[error("value with CID {cid_repr:?} is not JSON: {error}")]
+    MalformedValue { cid_repr: Rc<CidRef>, error: String },
 }
 
 impl<Val> Default for CidStore<Val> {
